@@ -525,6 +525,16 @@ theorem tbe_static_blocks_depend_on_threads :
     staticVisited 1 (List.range 13) = List.range 13 ∧ staticVisited 5 (List.range 13) = List.range 10 ∧
     staticVisited 64 (List.range 13) = [] := by decide
 
+/-- cobra runs only the nearest persistent pre-run hook: every runnable command of the live command tree either
+    has the root's hook (which calls `rand.Seed(seed)`) as its nearest one, or a hook whose body calls
+    `RootCmd.PersistentPreRun` itself (`compute support`).  Seeded change C18-9 (a hook on `brlen`) and the own
+    breakage M1 (a hook on `generate`) make this list non-empty; the random templates give the failing input. -/
+theorem seed_hook_reaches_every_command : commandsNotSeeded = [] := by decide
+
+/-- the list is not empty by vacuity: four commands do sit under a hook of their own -/
+theorem seed_hook_table_nonvacuous : Gen.C18Sites.preRunHidden.length ≥ 4 ∧
+    Gen.C18Sites.preRunHooks.any (fun h => h.2.1 == "gotree") = true := by decide
+
 /-- the sites of the excluded packages are exactly the reviewed ones -/
 theorem excluded_sites_reviewed : excludedSites.map (·.key) = reviewedExcludedSites.map (·.1) := by decide
 
